@@ -208,6 +208,12 @@ static ares_status_t ares_dns_write_rr_str(ares_buf_t          *buf,
     return ARES_EFORMERR;
   }
 
+  /* The parser only accepts printable strings, don't emit what we would
+   * refuse to read back */
+  if (!ares_str_isprint(str, len)) {
+    return ARES_EBADSTR;
+  }
+
   /* Write 1 byte length */
   status = ares_buf_append_byte(buf, (unsigned char)(len & 0xFF));
   if (status != ARES_SUCCESS) {
@@ -867,6 +873,7 @@ static ares_status_t ares_dns_write_rr_caa(ares_buf_t          *buf,
 {
   const unsigned char *data     = NULL;
   size_t               data_len = 0;
+  const char          *tag;
   ares_status_t        status;
 
   (void)namelist;
@@ -877,7 +884,11 @@ static ares_status_t ares_dns_write_rr_caa(ares_buf_t          *buf,
     return status; /* LCOV_EXCL_LINE: OutOfMemory */
   }
 
-  /* Tag */
+  /* Tag, must not be blank */
+  tag = ares_dns_rr_get_str(rr, ARES_RR_CAA_TAG);
+  if (ares_strlen(tag) == 0) {
+    return ARES_EFORMERR;
+  }
   status = ares_dns_write_rr_str(buf, rr, ARES_RR_CAA_TAG);
   if (status != ARES_SUCCESS) {
     return status; /* LCOV_EXCL_LINE: OutOfMemory */
